@@ -271,6 +271,11 @@ def parse_const(M,t,tyhint=None):
     mm=re.fullmatch(r'core::num::<impl ([iu]\d+|[iu]size)>::(MAX|MIN)',t)
     if mm:
         b,sg=ty_int(mm.group(1)); return Int(((1<<(b-1))-1 if sg else (1<<b)-1) if mm.group(2)=='MAX' else (-(1<<(b-1)) if sg else 0),b,sg)
+    mm=re.fullmatch(r'(?:core|std)::f32::<impl f32>::(EPSILON|MAX|MIN|MIN_POSITIVE|INFINITY|NEG_INFINITY|NAN)',t)
+    if mm:
+        import struct as _st
+        bits={'EPSILON':0x34000000,'MAX':0x7f7fffff,'MIN':0xff7fffff,'MIN_POSITIVE':0x00800000,'INFINITY':0x7f800000,'NEG_INFINITY':0xff800000,'NAN':0x7fc00000}[mm.group(1)]
+        return Flt(z3.fpBVToFP(z3.BitVecVal(bits,32),F32))
     if t.endswith('SizedTypeProperties>::ALIGN'): return Int(1,64)
     if t.endswith('SizedTypeProperties>::SIZE'): return Int(8,64)
     # named const / promoted
@@ -890,6 +895,9 @@ def utf8_boundary(b,i):
 
 def call_model(M,st,fr,callee,args):
     c=callee.strip(); n=strip_generics(c) if not c.startswith('<') else c
+    if c.startswith('core::f32::<impl f32>::') or c.startswith('std::f32::<impl f32>::'): c=c.split('::',1)[1]
+    if c.startswith('slice::<impl '): c='core::'+c
+    if c.startswith('std::slice::<impl '): c='core::'+c[5:]
     if c in M.overrides: return M.overrides[c](M,st,args)
     # ---- redirects through blanket impls
     m=re.match(r'^<(.*) as TryInto<(.*)>>::try_into$',c)
@@ -928,6 +936,14 @@ def call_model(M,st,fr,callee,args):
             neg=m.group(2)=='ne'
             return Redirect(f,[deref_once(args[0]),deref_once(args[1])],(lambda r: mkbool(z3.Not(r.z()))) if neg else None)
     # ---- scalars
+    m=re.match(r'^<([iu](?:8|16|32|64|size)) as Ord>::(min|max|cmp)$',c) or re.match(r'^(?:core|std)::cmp::(min|max)::<([iu](?:8|16|32|64|size))>$',c)
+    if m and (m.group(2) in('min','max') or m.group(1) in('min','max')):
+        meth=m.group(2) if m.group(2) in('min','max') else m.group(1)
+        a,b=deref(args[0]),deref(args[1])
+        if a.conc() and b.conc():
+            x,y=a.sval(),b.sval(); return Int(min(x,y) if meth=='min' else max(x,y),a.bits,a.signed)
+        lt=(a.z()<b.z()) if a.signed else z3.ULT(a.z(),b.z())
+        return Int(z3.If(lt,a.z(),b.z()) if meth=='min' else z3.If(lt,b.z(),a.z()),a.bits,a.signed)
     if c in('<isize as PartialOrd>::partial_cmp','<isize as Ord>::cmp'):
         a,b=deref(args[0]),deref(args[1])
         if a.conc() and b.conc():
@@ -1074,7 +1090,31 @@ def call_model(M,st,fr,callee,args):
         if inner.kind=='vec': inner=PyObj('iter',src='list',items=list(inner.items),pos=0)
         return PyObj('iter',src=m.group(2),inner=inner,closure=args[1])
     m=re.match(r'^<(.*) as Iterator>::collect::<Vec<',c)
-    if m: return Drain(args[0],'vec')
+    if m:
+        src_=args[0]
+        if isinstance(src_,Agg) and re.match(r'^std::ops::Range<',m.group(1)):
+            a_,b_=src_.f[0],src_.f[1]
+            if not(a_.conc() and b_.conc()): raise Unsupported('collect of a symbolic range')
+            return PyObj('vec',items=[Int(k,a_.bits) for k in range(a_.v,b_.v)])
+        return Drain(src_,'vec')
+    m=re.match(r'^core::slice::<impl \[.*\]>::(sort_by_key|sort_unstable_by_key)::<',c)
+    if m:
+        v=deref(args[0]); its=items(v); cells=[Cell('el',x) for x in its]
+        def done(res,M_,st_,its=its):
+            if not all(isinstance(r,Int) and r.conc() for r in res): raise Unsupported('sort_by_key with symbolic or non-integer keys')
+            order=sorted(range(len(its)),key=lambda k:(res[k].sval(),k))
+            new_=[its[k] for k in order]
+            for k in range(len(its)): its[k]=new_[k]
+            return Unit()
+        return SeqCallNF(args[1],[[Ref(cl,[])] for cl in cells],done)
+    m=re.match(r'^core::slice::<impl \[.*\]>::(sort|sort_unstable)$',c)
+    if m:
+        v=deref(args[0]); its=items(v)
+        if not all(isinstance(x,Int) and x.conc() for x in its): raise Unsupported('sort of non-concrete integers')
+        new_=sorted(its,key=lambda x:x.sval())
+        for k in range(len(its)): its[k]=new_[k]
+        return Unit()
+    if re.match(r'^<Vec<.*> as (Deref|DerefMut)>::(deref|deref_mut)$',c) and False: pass
     if c.startswith('once::<'): return PyObj('iter',src='list',items=[args[0]],pos=0)
     if re.match(r'^Box::<.*>::new_uninit$',c):
         cell=Cell('box',Agg('MaybeUninit',[Unit(),Agg('ManuallyDrop',[Agg('MaybeDangling',[None])])]))
